@@ -349,7 +349,13 @@ class OpGraph:
 
         # dummy trailing half-chain
         assert len(vlist_next) == 1
-        assert coeffs_next[0] == 1.0
+        if coeffs_next[0] != 1.0:
+            # a single operator half-chain was left at the last site:
+            # absorb its coefficient into the unique edge leading to the last node
+            node_last = graph.nodes[vlist_next[0].nidl]
+            assert len(node_last.eids[0]) == 1
+            edge_last = graph.edges[node_last.eids[0][0]]
+            edge_last.opics = [(i, coeffs_next[0] * c) for (i, c) in edge_last.opics]
 
         # make left node the new end node of the graph
         graph.nid_terminal[1] = vlist_next[0].nidl
